@@ -147,12 +147,12 @@ theorem C19_suspend_returns (cfg : Cfg) (s : St) (hr : Reachable cfg s) (w a : N
 /-- a suspender that moved the worker to `pre_sleep` cannot return before the worker has stored
     `sleeping` (it is in `waiters` until then, and `waiters ≠ []` implies `pre_sleep`) -/
 theorem C19_suspend_return_sound (cfg : Cfg) (s s' : St) (hr : Reachable cfg s) (a w v : Nat)
-    (h : step s (.sdone a w v) = some s') : a ∉ (s.wk w).waiters ∧ v = (s.wk w).st ∧
+    (h : step s (.sdone a w v) = some s') : a ∉ (s.wk w).waiters ∧
       ((s.wk w).waiters ≠ [] → (s.wk w).st = rsPreSleep) := by
   have hi := (inv_of_reachable hr) w
   simp only [step] at h
   split at h
-  · rename_i hg; exact ⟨hg.2, hg.1, hi.waitPre⟩
+  · rename_i hg; exact ⟨hg, hi.waitPre⟩
   · simp at h
 
 /-- **`resume_processing_unit` returns, and the lost-notify window is covered.**  From every
